@@ -63,7 +63,7 @@ func genC14Args(r *zsim.Rng, p *sysPlan) {
 		add("--gap", pick(r, "1", "2"))
 		if r.Bool() {
 			// the line drawn in the gap: plain, empty, wide, or nothing but colour codes (no width at all)
-			add("--gap-line", pick(r, "-", "", "日本", "\x1b[31m", "\x1b[31m-\x1b[m", "ab\tc"))
+			add("--gap-line", pick(r, "-", "", "日本", "\x1b[31m", "\x1b[31m-\x1b[m", "ab\tc", "\u200b", "\x1b[31m\u200b", "\u0301", "\x1b[1m\u200b\x1b[m"))
 		}
 	}
 	if r.Chance(1, 6) {
@@ -343,6 +343,7 @@ func genC14Plan(r *zsim.Rng) *sysPlan {
 		}
 		ps.Endless = r.Chance(1, 6)
 		ps.Fork = r.Chance(1, 3)
+		ps.IgnTerm = r.Chance(1, 4)
 		if !ps.Fork && r.Chance(1, 8) {
 			// the input command leaves a process behind, outside its process group, that holds the pipe
 			ps.DetachMs = []int{60000, 3600000}[r.Intn(2)]
